@@ -16,6 +16,7 @@ RULE = ("Hypothesis: arbitrary relative message lists (<= 24 messages) over 2 ch
         "order (strict on/off alternation per channel+pitch, closed at the end), no signature repeating the one in force, sum "
         "of waits unchanged; for paired input sounding-set equality (open-counter walk) and idempotence. Non-trivial: input "
         "contains a re-trigger, nested pair, orphan off, unclosed on or repeated signature. Distinct by case digest.")
+RULE = RULE + " Round g: control changes (controllers 120, 123, 121, 64, 7, 0) and program changes between the notes."
 ASSUMPTIONS = ["which velocity a fused note keeps is not part of the statement",
                "non-note, non-signature events are not generated (their treatment is not part of the statement)"]
 TIERS = {"quick": dict(shards=8, examples=2500, alt_ppqn=[480], alt_shards=2),
@@ -36,6 +37,10 @@ def _case(draw, size=1):
         st.tuples(st.just("off"), st.integers(0, 1), st.sampled_from(pitches)),
         st.tuples(st.just("ts"), st.sampled_from([3, 4]), st.sampled_from([4, 8]), st.integers(0, 1)),
         st.tuples(st.just("ks"), st.sampled_from(["C", "G", "Db"]), st.integers(0, 1)),
+        # control / program changes between the notes (incl. the 'all sound off' / 'all notes off' controller numbers): they are
+        # no note events and must not change which notes sound
+        st.tuples(st.just("cc"), st.integers(0, 1), st.sampled_from([120, 123, 64, 7, 0, 121]), st.integers(0, 127)),
+        st.tuples(st.just("pc"), st.integers(0, 1), st.integers(0, 127)),
     )
     msgs = [list(m) for m in draw(st.lists(msg, min_size=n, max_size=n))]
     if draw(st.booleans()):
@@ -85,6 +90,10 @@ def _build(msgs, share=False):
             out.append(Message(message_type=MT.TIME_SIGNATURE, channel=m[3], numerator=m[1], denominator=m[2]))
         elif m[0] == "ks":
             out.append(Message(message_type=MT.KEY_SIGNATURE, channel=m[2], key=Key(m[1])))
+        elif m[0] == "cc":
+            out.append(Message(message_type=MT.CONTROL_CHANGE, channel=m[1], control=m[2], velocity=m[3]))
+        elif m[0] == "pc":
+            out.append(Message(message_type=MT.PROGRAM_CHANGE, channel=m[1], program=m[2]))
         if share and len(out) > n_before:
             memo[tuple(m)] = out[-1]
     return out
